@@ -109,7 +109,7 @@ Theorem bad_shapes_rejected : forall env src a l,
   (forall x, c_scores a = SArr x -> a_shape x = [len l]) /\
   (forall x, c_scores a = SNone -> lookup F_SCORE (eff_fields src a) = Some (FArr x) -> a_shape x = [len l]) /\
   (forall x, lookup F_RANK (c_fields a) = Some (FArr x) -> c_ordered a <> Some false -> a_shape x = [len l]) /\
-  (forall z, c_ids a = Some z -> z_badtype z = false /\ (z_shape z = [len l] \/ (len l = 0%nat /\ exists r, z_shape z = 0%nat :: r))) /\
+  (forall z, c_ids a = Some z -> (z_badtype z = false /\ z_shape z = [len l]) \/ (len l = 0%nat /\ exists r, z_shape z = 0%nat :: r)) /\
   (forall z, c_nums a = Some z -> z_shape z = [len l] \/ (len l = 0%nat /\ exists r, z_shape z = 0%nat :: r)).
 Proof. exact bad_shapes_rejected_l. Qed.
 Print Assumptions bad_shapes_rejected.
